@@ -976,12 +976,18 @@ func (self *Analyzer) callExpression(node pAst.CallExpression) ast.AnalyzedCallE
 	// If this is a thread spawn, create a thread handle as the result
 	// TODO: migrate this to the `core-lib` and reference the type from here
 	if node.IsSpawn {
+		// The base may be unresolved (an error was reported already): the result type is unknown then.
+		var joinResult ast.Type = ast.NewUnknownType()
+		if thisExpressionResultsIn != nil {
+			joinResult = thisExpressionResultsIn.SetSpan(node.Range)
+		}
+
 		thisExpressionResultsIn = ast.NewObjectType([]ast.ObjectTypeField{
 			ast.NewObjectTypeField(
 				pAst.NewSpannedIdent("join", node.Span()), ast.NewFunctionType(
 					ast.NewNormalFunctionTypeParamKind(make([]ast.FunctionTypeParam, 0)),
 					node.Span(),
-					thisExpressionResultsIn.SetSpan(node.Range),
+					joinResult,
 					node.Span(),
 				), node.Span(),
 			),
